@@ -4,6 +4,7 @@
    every byte the fancy parser dispatches on.  The parse of the escaped string and the search
    behaviour are established on the parser model by the T1 tie and the enumeration. *)
 From FR Require Import Base Utf8 Ast Analyze Escape Parse.
+From FR Require Import Utf8Facts EscapeParse.
 From FR.Generated Require Consts.
 From Coq Require Import Lia.
 
@@ -43,6 +44,17 @@ Definition parser_dispatch : list nat := [46; 94; 36; 40; 92; 43; 42; 63; 124; 4
 Theorem C17_specials_cover_parser : forallb is_special parser_dispatch = true.
 Proof. vm_compute. reflexivity. Qed.
 
+
+(* parse(escape(s)) is the chain of the one-character literals of s - for EVERY string s that is
+   valid UTF-8 (Proofs/EscapeParse.v: the escaped string is a sequence of tokens, a backslash
+   followed by one of the 15 special bytes or an unescaped character; the parser model is run
+   symbolically over one token - all 15 escapes through parse_escape's dispatch chain - and then
+   over the whole string by induction, with the fuel of Parser::parse shown to suffice) *)
+Theorem C17_parse_escape : forall s, valid_text s ->
+  exists cs, s = concat cs /\ valid_chars cs /\
+             parse (fst (escape s)) = POk (finish (map lit cs), pst0).
+Proof. exact parse_escape_is_literals. Qed.
+
 Check C17_quoted_shape : forall s, unquote (length (push_quoted s)) (push_quoted s) = s.
 
 (* on the parser model: escape("a|b.") parses to the chain of literals, and a host keeps it *)
@@ -56,3 +68,4 @@ Proof. vm_compute. exact I. Qed.
 Print Assumptions C17_escape_borrow.
 Print Assumptions C17_quoted_shape.
 Print Assumptions C17_specials_cover_parser.
+Print Assumptions C17_parse_escape.
